@@ -114,6 +114,26 @@ def seqmatch_templates(ctx):
     return out
 
 
+def search_text_effects(ctx) -> List[str]:
+    """DNARegex.search evaluated on every kind of target: the inspections of the searched text made outside the compiled
+    pattern (`in`, str.find / count / startswith ..., another regular expression applied to it), wherever in the code
+    base the text travels (helpers, small objects that keep it).  Operations of the text the evaluation has no model for
+    end as an analysis error, so an empty answer means: the compiled pattern, len(), doubling and slicing only."""
+    p = ctx.program
+    fi = p.get_func("moclo.regex.DNARegex.search")
+    POS, END, getattr_hook, make_args_for = _search_setup(ctx)
+    found = []
+    for kind in ("CircularRecord", "SeqRecord", "Seq"):
+        for linear in (None, True, False):
+            for explicit in (False, True):
+                outs = run_paths(ctx, fi, make_args_for(kind, linear, explicit), [N - 1], hooks={"getattr": getattr_hook})
+                for o in outs:
+                    for e in o.path.effects:
+                        if e[0] in ("text-test", "text-search"):
+                            found.append("%s %s" % (e[0], e[1]))
+    return sorted(set(found))
+
+
 def new_seqmatch(p, rm, rec, key=("CircularRecord", None), name=None):
     """A SeqMatch shaped as DNARegex.search builds it for that kind of target."""
     tmpl = seqmatch_templates(p)[key]
@@ -203,8 +223,9 @@ def k2_search(ctx, pid: str):
                 out.append((rule + ".text", name, okt, det))
             if found:
                 v = o.value
+                # (under whatever names the constructor keeps them: K1 evaluates group() on objects shaped as built here)
                 okr = (o.kind == "return" and isinstance(v, AObj) and v.cls is sm_cls
-                       and isinstance(v.attrs.get("match"), AReMatch) and v.attrs.get("rec") is I.the_string)
+                       and any(isinstance(x, AReMatch) for x in v.attrs.values()) and any(x is I.the_string for x in v.attrs.values()))
                 out.append((rule + ".result", name, okr,
                             "the first position that matches must be returned at once as SeqMatch(match, target): got %r" % (o,)))
             else:
@@ -412,6 +433,11 @@ def _k5_features(ctx, pid: str, meth: str, sign: int):
             if res is I.kernel_args[0]:
                 return []  # rotation by a multiple of n returns the record itself
             out = []
+            early = [e for e in o.path.effects if e[0] in ("return-in-loop", "break") and e[1] == "features"]
+            if early:
+                return [("K5.feature-list", name, False,
+                         "the walk over the features is left before the last one (%s inside the loop): the features listed after that "
+                         "one are missing from the rotated record" % ("a return" if early[0][0] == "return-in-loop" else "a break"))]
             feats = res.attrs.get("features")
             if not (isinstance(feats, AList) and feats.generic and len(feats.items) == 1):
                 return [("K5.feature-list", name, False,
@@ -486,13 +512,8 @@ def k13_citations(ctx, pid: str):
     from .roles import citation_functions, citation_regex
 
     deref, ref = citation_functions(p)
-    rx_pat = citation_regex(p, deref)
-    if not isinstance(rx_pat, str):
-        raise AnalysisError("anchor vanished: the citation pattern of %s is not re.compile(<literal>)" % deref.qualname)
-    try:
-        rx = re.compile(rx_pat)
-    except re.error:
-        raise AnalysisError("_CITATION_RX does not compile")
+    rx_pat = citation_regex(p, deref)  # (by shape; when that fails, the pattern object the evaluation meets decides, below)
+    used_patterns: List[object] = []
 
     CIT = Term("cit")
 
@@ -515,6 +536,7 @@ def k13_citations(ctx, pid: str):
 
     def getattr_hook(fr, base, a, node):
         if isinstance(base, AStruct) and base.kind == "regex" and a == "match":
+            used_patterns.append(base.fields.get("pattern"))
             return BoundMethod("py", citation_match, a)
         if isinstance(base, AStruct) and base.kind == "cit-match" and a == "group":
             def grp(fr2, args, kwargs, node2):
@@ -597,6 +619,18 @@ def k13_citations(ctx, pid: str):
 
     outs = run_paths(ctx, deref, lambda I: args_for(deref, I), [N - 1], hooks=hooks, post=post_deref)
     emit(ctx, outs, deref.where())
+    if not isinstance(rx_pat, str):
+        # the compiled pattern the dereference really matched with, wherever it is kept (a class attribute of a table
+        # object, a constructor default, a module constant)
+        seen_pats = {x for x in used_patterns if isinstance(x, str)}
+        if len(seen_pats) != 1 or len(seen_pats) != len({repr(x) for x in used_patterns}):
+            raise AnalysisError("anchor vanished: the citation pattern of %s is not re.compile(<literal>) (patterns met: %r)"
+                                % (deref.qualname, sorted(map(repr, used_patterns))[:3]))
+        rx_pat = seen_pats.pop()
+    try:
+        rx = re.compile(rx_pat)
+    except re.error:
+        raise AnalysisError("_CITATION_RX does not compile")
 
     # -- writer ---------------------------------------------------------
     written_formats = []
@@ -626,13 +660,20 @@ def k13_citations(ctx, pid: str):
         # iteration that answers is the first one whose element equals the reference (the body leaves the loop there), and a
         # walk that ends without an answer has compared every element
         scan = None
+        scan_enum, scan_found, scan_eq_false = None, False, False
         for t, v in o.path.choices:
-            m_ = re.match(r"^equal (?:item1\(elem-of\((enumerate\(.*\))\)\) cit|cit item1\(elem-of\((enumerate\(.*\))\)\))$", t)
+            m_ = re.match(r"^(equal|identical) (?:item1\(elem-of\((enumerate\(.*\))\)\) cit|cit item1\(elem-of\((enumerate\(.*\))\)\))$", t)
             if m_ and "references" in t:
-                scan = (m_.group(1) or m_.group(2), v)
-        if scan is not None:
+                scan_enum = m_.group(2) or m_.group(3)
+                if v is True:
+                    scan_found = True  # the element is, or equals, the reference (`known is ref or known == ref`)
+                elif m_.group(1) == "equal":
+                    scan_eq_false = True
+        if scan_enum is not None and (scan_found or scan_eq_false):
+            # (a walk that only tested identity and found nothing has not asked whether an equal reference is listed)
+            scan = (scan_enum, scan_found)
             asked = True
-            absent = absent or (scan[1] is False)
+            absent = absent or (scan_eq_false and not scan_found)
         if not stores:
             return []
         if len(stores) != 1:
@@ -681,7 +722,11 @@ def k13_citations(ctx, pid: str):
         elif scan is not None and scan[1] is True and isinstance(val, Term) and val.op == "format" and len(val.args) == 2:
             # the number written is the counter of the answering iteration: 1-based exactly when the count starts at 1
             fmt_, num = val.args
-            ok = repr(num) == "item0(elem-of(%s))" % scan[0] and scan[0].endswith(",start=1)") and "annotations(rec)" in scan[0]
+            counter = "item0(elem-of(%s))" % scan[0]
+            start_ = 1 if scan[0].endswith(",start=1)") else (0 if ",start=" not in scan[0] else None)
+            # counted from 1 and written as is, or counted from 0 and written plus one
+            ok = "annotations(rec)" in scan[0] and ((repr(num) == counter and start_ == 1)
+                                                     or (repr(num) in ("add(%s,1)" % counter, "add(1,%s)" % counter) and start_ == 0))
             if not ok:
                 det += " (position counted by %s)" % scan[0]
             try:
@@ -774,6 +819,15 @@ def _entity_hooks(p):
             return Term(kind, Term(obj.name))
         return hook
 
+    def term_type(t):
+        # the overhang accessors return Bio.Seq.Seq objects (K10); upper() / lower() of a Seq is a Seq
+        while isinstance(t, Term) and t.op in NORMALISERS and len(t.args) == 1:
+            t = t.args[0]
+        if isinstance(t, Term) and t.op in ("start", "end") and len(t.args) == 1:
+            return {"Seq"}
+        return None
+
+    hooks["term_type"] = term_type
     for cname in ("moclo.core.modules.AbstractModule", "moclo.core.vectors.AbstractVector"):
         for meth, kind in (("overhang_start", "start"), ("overhang_end", "end"), ("target_sequence", "target")):
             hooks["%s.%s" % (cname, meth)] = mk(kind)
@@ -911,6 +965,14 @@ def k15_map(ctx, pid: str):
         if o.kind == "raise" and not rc_asked:
             out.append(("K15.duplicate", name, False, "a module whose start overhang is new (or the same object passed twice) is refused: %r" % (o,)))
             return out
+        early = [e for e in o.path.effects if e[0] in ("return-in-loop", "break")]
+        if early and o.kind == "return":
+            # the walk over the keys (or over whatever a helper generator yields for them) is left before the last one
+            # without an error: the keys after that one are never checked against their reverse complement
+            out.append(("K15.reverse-complement", name, False,
+                        "the check of reverse-complementary start overhangs stops at the first key that passes it (%s inside the walk over %s): "
+                        "a pair further on is not reported" % ("a return" if early[0][0] == "return-in-loop" else "a break", early[0][1])))
+            return out
         out.append(("K15.reverse-complement", name, bool(rc_asked),
                     "after the map is built every key's reverse complement must be looked up in it (lookups: %r)" % ([e[2] for e in gets],)))
         if rc_asked:
@@ -976,6 +1038,35 @@ def _find_walk_loop(p, fi: FuncInfo):
         g = None
         if isinstance(fn, ast.Attribute) and isinstance(fn.value, ast.Name) and fn.value.id in ("self", "cls") and f.owner is not None:
             _, g = p.class_attr_def(f.owner, fn.attr)
+        elif isinstance(fn, ast.Attribute) and isinstance(fn.value, ast.Name):
+            # a method of a small object of the code base built in the function: chain = Chain(...); chain.grow(...)
+            for n in ast.walk(f.node):
+                if isinstance(n, ast.Assign) and len(n.targets) == 1 and isinstance(n.targets[0], ast.Name) and n.targets[0].id == fn.value.id \
+                        and isinstance(n.value, ast.Call):
+                    try:
+                        c = p.resolve_expr(f.module, n.value.func)
+                    except Exception:
+                        c = None
+                    if not isinstance(c, ClassInfo) and isinstance(n.value.func, ast.Attribute):
+                        # an alternative constructor: Chain.for_vector(...)
+                        try:
+                            c = p.resolve_expr(f.module, n.value.func.value)
+                        except Exception:
+                            c = None
+                    if isinstance(c, ClassInfo):
+                        _, g = p.class_attr_def(c, fn.attr)
+        elif isinstance(fn, ast.Attribute) and isinstance(fn.value, ast.Call):
+            # a method called on a freshly built object: Chain(self.vector).grow(modmap)
+            c = None
+            for cand in (fn.value.func, fn.value.func.value if isinstance(fn.value.func, ast.Attribute) else None):
+                if cand is None or isinstance(c, ClassInfo):
+                    continue
+                try:
+                    c = p.resolve_expr(f.module, cand)
+                except Exception:
+                    c = None
+            if isinstance(c, ClassInfo):
+                _, g = p.class_attr_def(c, fn.attr)
         elif isinstance(fn, ast.Name):
             g = p.resolve_expr(f.module, fn)
         return g if isinstance(g, FuncInfo) else None
@@ -1046,6 +1137,28 @@ def _find_walk_loop(p, fi: FuncInfo):
     return found
 
 
+def _walk_state_attrs(p, cls: ClassInfo) -> Set[str]:
+    """attributes of a small object of the code base that its methods (other than the constructor) assign or mutate: the
+    state such an object carries from one round of the walk to the next (`chain.overhang`, `chain.insert`)"""
+    out: Set[str] = set()
+    for c in p.mro(cls):
+        if not isinstance(c, ClassInfo):
+            continue
+        for nm, raw in c.attrs.items():
+            if not isinstance(raw, FuncInfo) or nm == "__init__" or not raw.node.args.args:
+                continue
+            me = raw.node.args.args[0].arg
+            for n in ast.walk(raw.node):
+                if isinstance(n, ast.Attribute) and isinstance(n.value, ast.Name) and n.value.id == me:
+                    if isinstance(n.ctx, (ast.Store, ast.Del)):
+                        out.add(n.attr)
+                if isinstance(n, ast.Call) and isinstance(n.func, ast.Attribute) and isinstance(n.func.value, ast.Attribute) \
+                        and isinstance(n.func.value.value, ast.Name) and n.func.value.value.id == me \
+                        and n.func.attr in ("append", "extend", "insert", "pop", "remove", "clear", "update", "add", "setdefault", "popitem", "discard"):
+                    out.add(n.func.value.attr)
+    return out
+
+
 def k14_walk(ctx, pid: str):
     p, mgr, mod_cls, vec_cls = _mgr_world(ctx)
     fi = p.get_func("moclo.core._assembly.AssemblyManager._generate_assembly")
@@ -1068,8 +1181,17 @@ def k14_walk(ctx, pid: str):
 
     hooks["map_value"] = map_value
 
+    entity_root = p.get_class("moclo.core._structured.StructuredRecord")
+    entity_vars: Set[str] = set()  # loop-carried names that hold a module (found by a first evaluation, see below)
+
+    def is_carrier(v) -> bool:
+        return isinstance(v, AObj) and isinstance(v.cls, ClassInfo) and v.cls is not mgr and not p.is_subclass(v.cls, entity_root) \
+            and not p.is_subclass(mgr, v.cls) and bool(_walk_state_attrs(p, v.cls)) \
+            and not isinstance(p.class_attr_def(v.cls, "__eq__")[1], FuncInfo)
+
     def havoc(fr: Frame):
         I = fr.I
+        seen_carriers: Set[int] = set()
         for f in (I.frames or [fr]):
             names = assigned_by.get(f.fi.qualname if f.fi is not None else "", set())
             from .absint import ChainEnv
@@ -1083,6 +1205,11 @@ def k14_walk(ctx, pid: str):
                 elif isinstance(v, ARec):
                     I.path.cons.add(P_LEN)
                     f.env[nm] = ARec(v.circular, [Piece("P", ZERO, P_LEN)], Term("P"), deriv=("accumulator",))
+                elif nm in entity_vars and (v is None or (isinstance(v, AObj) and p.is_subclass(v.cls, entity_root))):
+                    # "the module linked last, if any": nothing before the first round, some module afterwards
+                    f.env[nm] = None if I.path.choose("none-so-far %s" % nm) else _entity(mod_cls, "Mprev")
+                elif is_carrier(v):
+                    pass  # a state object: its attributes are havocked below, whichever name it goes by
                 elif isinstance(v, AObj) and isinstance(v.cls, ClassInfo) and isinstance(p.class_attr_def(v.cls, "__eq__")[1], FuncInfo) \
                         and all(isinstance(a, Term) for a in v.attrs.values()):
                     # the current overhang kept in a small value object (spelling + case-folded spelling): any overhang
@@ -1098,6 +1225,25 @@ def k14_walk(ctx, pid: str):
                     for av in v.attrs.values():
                         if isinstance(av, AMap):
                             av.adds, av.removes = [], []
+                if is_carrier(v) and id(v) not in seen_carriers:
+                    # the plan / chain object the walk grows: what its methods assign is loop-carried state
+                    seen_carriers.add(id(v))
+                    for an in sorted(_walk_state_attrs(p, v.cls)):
+                        av = v.attrs.get(an)
+                        if isinstance(av, Term):
+                            v.attrs[an] = KAPPA
+                        elif isinstance(av, ARec):
+                            I.path.cons.add(P_LEN)
+                            v.attrs[an] = ARec(av.circular, [Piece("P", ZERO, P_LEN)], Term("P"), deriv=("accumulator",))
+                        elif isinstance(av, AList) and not av.generic and all(isinstance(x, ARec) for x in av.items):
+                            # the fragments collected so far, to be joined at the end: known through their concatenation
+                            from .absint import AFragList
+
+                            I.path.cons.add(P_LEN)
+                            v.attrs[an] = AFragList(ARec(False, [Piece("P", ZERO, P_LEN)], Term("P"), deriv=("accumulator",)))
+                            v.attrs[an].undetermined = not av.items
+                        elif an in v.attrs and not isinstance(av, (AMap, AObj)):
+                            v.attrs[an] = Term("havoc:%s.%s" % (nm, an))
 
     hooks["havoc"] = havoc
 
@@ -1132,19 +1278,42 @@ def k14_walk(ctx, pid: str):
         def plain(env_):
             # a small value object around the overhang counts as the overhang it stands for
             out_ = {}
+            flattened = set()
             for k_, v_ in env_.items():
+                if is_carrier(v_):
+                    if id(v_) in flattened:
+                        continue  # the same object under another name (`chain` in the caller, `self` in its own method)
+                    flattened.add(id(v_))
                 if isinstance(v_, AObj) and isinstance(v_.cls, ClassInfo) and isinstance(p.class_attr_def(v_.cls, "__eq__")[1], FuncInfo):
                     try:
                         v_ = I.key_of(v_)
                     except AnalysisError:
                         pass
                 out_[k_] = v_
+                if is_carrier(v_):
+                    # the state a chain / plan object carries counts as variables of the walk: chain.overhang, chain.insert
+                    from .absint import AFragList
+
+                    for an_, av_ in v_.attrs.items():
+                        if isinstance(av_, AFragList) and getattr(av_, "opaque", False):
+                            continue
+                        if isinstance(av_, AFragList):
+                            av_ = av_.rec
+                        elif isinstance(av_, AList) and not av_.generic and all(isinstance(x, ARec) for x in av_.items) and an_ in _walk_state_attrs(p, v_.cls):
+                            # a list of fragments stands for their concatenation (an empty list for the empty record)
+                            pieces_ = [pc for x in av_.items for pc in x.pieces]
+                            av_ = ARec(False, pieces_, Term("fragments"), deriv=("fragments",))
+                        if isinstance(av_, (Term, ARec)):
+                            out_["%s.%s" % (k_, an_)] = av_
             return out_
 
         env0 = plain(entry[0][1])
         k0 = [v for v in env0.values() if isinstance(v, Term) and strip_norm(v) == END_V]
         acc0 = [v for v in env0.values() if isinstance(v, ARec)]
-        ok0 = bool(k0) and len(acc0) == 1 and not I.canon(acc0[0].pieces) and not acc0[0].circular
+        # (an object that carries the state may hold several empty lists when the walk begins -- fragments, modules used --
+        # of which only the first record appended tells which is which: every candidate accumulator must be empty and linear)
+        ok0 = bool(k0) and len(acc0) >= 1 and all(not I.canon(a_.pieces) and not a_.circular for a_ in acc0) and (
+            len(acc0) == 1 or sum(1 for a_ in acc0 if a_.deriv != ("fragments",)) <= 1)
         out.append(("K14.entry", name, ok0,
                     "the walk must start from the vector's downstream overhang with an empty linear accumulator: entry state %r"
                     % ({k: v for k, v in env0.items() if k != "self"},)))
@@ -1199,7 +1368,7 @@ def k14_walk(ctx, pid: str):
             # (a variable that still holds the overhang the step started from matters when the walk goes on from it: the
             # names the loop's own test reads; a throw-away target of an unpacking that happens to keep it does not)
             carried = {x.id for x in ast.walk(loop.test) if isinstance(x, ast.Name)} if isinstance(loop, ast.While) else None
-            stale = [v for k_, v in env.items() if isinstance(v, Term) and v == KAPPA and (carried is None or k_.lstrip("^") in carried)]
+            stale = [v for k_, v in env.items() if isinstance(v, Term) and v == KAPPA and (carried is None or k_.lstrip("^").split(".")[0] in carried)]
             out.append(("K14.step-next", name, bool(nxt) and not stale,
                         "the next overhang must be the consumed module's downstream overhang: state %r"
                         % ({k_: v for k_, v in env.items() if isinstance(v, Term)},)))
@@ -1254,6 +1423,20 @@ def k14_walk(ctx, pid: str):
         return out
 
     outs = run_paths(ctx, fi, make_args, [], hooks=hooks, step_loop=loop, post=post)
+    # a name that is None when the walk begins and holds the module consumed when a round ends ("previous", "last link"):
+    # on an arbitrary round it is None or some module -- evaluated again with that, so that what is done with it (an error
+    # message naming the module the chain stalls after) is run on a module, not on an opaque value
+    all_assigned = set().union(*[v for k_, v in assigned_by.items() if isinstance(v, set)]) if assigned_by else set()
+    for o_ in outs:
+        if o_.kind == "step":
+            entry_ = [e for e in o_.path.effects if e[0] == "loop-entry"]
+            for k_, v_ in o_.env.items():
+                if isinstance(v_, AObj) and v_.name.startswith("M[") and k_.lstrip("^") in all_assigned and entry_ and entry_[0][1].get(k_, 0) is None:
+                    entity_vars.add(k_.lstrip("^"))
+    if entity_vars:
+        working["step"].clear()
+        working["exit"].clear()
+        outs = run_paths(ctx, fi, make_args, [], hooks=hooks, step_loop=loop, post=post)
     emit(ctx, outs, fi.where())
     r = ctx.report
     if working["step"] and working["exit"]:
